@@ -80,7 +80,6 @@ class Runtime:
         self.modules: dict = {}    # src hash -> namespace of a translated script module
         self.junk: list = []
         repo = spec["env"].get("repo", "/repo")
-        site = os.path.dirname(os.path.dirname(os.path.abspath(json.__file__)))  # stdlib dir
         import onnx
         import onnx_ir
 
